@@ -16,6 +16,8 @@ def evaluator(p, res, meta):
         o = asmgen.Oracle(p).run()
     except asmgen.Unsupported:
         return None
+    if any(a == "bad-op" for (_, a, _) in res):
+        return None         # not a program (the shrinker removes lines: a session operation outside its block means nothing)
     ff = o.first_failing_commit()
     commit_ix = {i for i in o.commits}
     # observed first failing commit-like call
@@ -23,13 +25,13 @@ def evaluator(p, res, meta):
     last_buf = None
     for idx, (req, a, _) in enumerate(res):
         k = req.split()[0]
-        if a in ("panic", "dead") and k in ("c", "fin", "take", "drain"):
+        if a in ("panic", "dead") and k in ("c", "fin", "take", "drain", "}alter", "alter{"):
             # finalize on the executable assembler panics on an error by design (`expect`)
             if k == "fin" and ff is not None and p[0].startswith("new asm"):
                 obs = (idx, "err <panic in finalize>")
                 break
             return ({"kind": "panic", "op": k}, f"`{k}` panicked")
-        if k in ("c", "fin", "take", "drain") and a.startswith("err"):
+        if k in ("c", "fin", "take", "drain", "}alter", "alter{") and a.startswith("err"):
             obs = (idx, a)
             break
     if ff is None:
@@ -83,6 +85,32 @@ def check(run):
         progs.append(lines)
         metas.append(None)
         classes[defect or "healthy"] = classes.get(defect or "healthy", 0) + 1
+    # defects inside alter sessions: a backward reference to a name that has no definition yet (possibly defined LATER in the same session),
+    # an unknown global / forward name, a duplicate global definition — the session must end with the right error
+    import c10
+    n_ses = 0
+    for i in range(20000 if thorough else 1500):
+        fam = rng.choice(["x64", "x86", "a64", "rv"])
+        lines, _ = c10.session_program(rng, fam, True, False)
+        ix = [k for k, l in enumerate(lines) if l.split()[0] in ("rb", "rf", "rg") and "alter{" in lines[:k] and "}alter" in lines[k:]]
+        if not ix:
+            continue
+        k = rng.choice(ix)
+        ws = lines[k].split()
+        mode = rng.choice(["back-undefined", "back-defined-later", "unknown", "dup-global"])
+        if mode in ("back-undefined", "back-defined-later"):
+            lines[k] = " ".join(["rb", "5"] + ws[2:])
+            if mode == "back-defined-later":
+                end = next(j for j in range(k, len(lines)) if lines[j] == "}alter")
+                lines.insert(rng.range(k + 1, end), "ll 5")
+        elif mode == "unknown":
+            lines[k] = " ".join([rng.choice(["rf", "rg"]), "6"] + ws[2:])
+        else:
+            lines.insert(k, "gl 9")
+        progs.append(lines)
+        metas.append(None)
+        n_ses += 1
+        classes["session:" + mode] = classes.get("session:" + mode, 0) + 1
     stats = asmprops.process(run, progs, evaluator, metas, chunk=250)
     run.coverage["evaluations"] = len(progs)
     run.coverage["distinct_nontrivial"] = stats.get("with_error", 0)
